@@ -16,6 +16,7 @@ import (
 
 	"github.com/ucan-wg/go-ucan/pkg/args"
 	"github.com/ucan-wg/go-ucan/pkg/container"
+	"github.com/ucan-wg/go-ucan/pkg/policy"
 	"github.com/ucan-wg/go-ucan/token"
 	"github.com/ucan-wg/go-ucan/token/delegation"
 	"github.com/ucan-wg/go-ucan/token/invocation"
@@ -619,6 +620,15 @@ func hasTopLevelNull(tk token.Token) bool {
 }
 
 func (w *worldExec) delegate(s *DlgSpec) {
+	polBase = func(label string) (policy.Policy, bool) {
+		if a, ok := w.outbox[label]; ok && a.kind == "dlg" {
+			if d, ok := a.obj.(*delegation.Token); ok && d != nil {
+				return d.Policy(), true
+			}
+		}
+		return nil, false
+	}
+	defer func() { polBase = nil }()
 	s.Iss, s.Aud, s.Sub = w.cast.canon(s.Iss), w.cast.canon(s.Aud), w.cast.canon(s.Sub)
 	if s.Iss < 0 || s.Iss >= lookAlike {
 		s.Iss = 0 // an issuer is always a cast member holding a key
